@@ -7,7 +7,7 @@ from daemon import probe
 BITS = {"ur": 0o400, "uw": 0o200, "ux": 0o100, "gr": 0o40, "gw": 0o20, "gx": 0o10, "or": 0o4, "ow": 0o2, "ox": 0o1,
         "suid": 0o4000, "sgid": 0o2000, "sticky": 0o1000}
 BLOCK = 256
-L02 = ["C02_NoResidue"]
+L02 = ["C02_NoResidue", "C02_CompleteAtReturn"]
 L13 = ["C13_Mode", "C13_Owner", "C13_NeverWiderThanAsked", "C13_RewriteKeepsMode"]
 
 MC_CFG = """SPECIFICATION MCSpec
@@ -54,10 +54,11 @@ def model(tag, grid, maxops, lens):
 
 
 def model_sanity(tag):
-    p = dict(enforce=tlc.tla_set(L02 + L13), dev='{"WriteNoTruncate"}', lens="1,2,3", maxops=2, grid="content")
-    r = tlc.model_check("Storage", MC_CFG % p, tag, workers=4, timeout=600)
-    if not r["violated"]:
-        raise ToolError("Storage model sanity: WriteNoTruncate does not violate the invariants")
+    for dev in ("WriteNoTruncate", "WriteNotFlushed"):
+        p = dict(enforce=tlc.tla_set(L02 + L13), dev='{"%s"}' % dev, lens="1,2,3", maxops=2, grid="content")
+        r = tlc.model_check("Storage", MC_CFG % p, tag + "_" + dev, workers=4, timeout=600)
+        if not r["violated"]:
+            raise ToolError("Storage model sanity: %s does not violate the invariants" % dev)
     return True
 
 
@@ -111,13 +112,13 @@ def replay_one(args):
     for h, res in zip(hist, r["results"]):
         if not res.get("ok"):
             return idx, ev, "write failed: %s" % res
-        s = res["seen"]
-        if s.get("exists"):
-            runs = [{"fill": b, "len": (c // BLOCK if c % BLOCK == 0 else -c)} for b, c in s["runs"]]
-            seen = {"exists": True, "runs": runs, "mode": to_bits(s["mode"]), "uid": s["uid"], "gid": s["gid"]}
-        else:
-            seen = {"exists": False, "runs": [], "mode": [], "uid": 0, "gid": 0}
-        ev.append({"e": "Write", "type": h["type"], "fill": res["fill"], "len": h["len"], "seen": seen})
+        def obs(s):
+            if s.get("exists"):
+                runs = [{"fill": b, "len": (c // BLOCK if c % BLOCK == 0 else -c)} for b, c in s["runs"]]
+                return {"exists": True, "runs": runs, "mode": to_bits(s["mode"]), "uid": s["uid"], "gid": s["gid"]}
+            return {"exists": False, "runs": [], "mode": [], "uid": 0, "gid": 0}
+        ev.append({"e": "Write", "type": h["type"], "fill": res["fill"], "len": h["len"],
+                   "ret": obs(res.get("at_return", res["seen"])), "seen": obs(res["seen"])})
     shutil.rmtree(d, ignore_errors=True)
     return idx, ev, None
 
@@ -167,11 +168,15 @@ def daemon_write_events(result, modes, uids, gids, umask):
                     pre = dict(pre)
                     pre[ftype] = {"exists": True, "runs": [{"fill": p.get("sha", "?"), "len": p.get("len", 0)}],
                                   "mode": to_bits(p.get("mode", 0)), "uid": p.get("uid", 0), "gid": p.get("gid", 0)}
-                seen = {"exists": bool(f.get("exists")), "runs": [{"fill": f.get("sha", "?"), "len": f.get("len", 0)}] if f.get("exists") else [],
-                        "mode": to_bits(f.get("mode", 0)), "uid": f.get("uid", 0), "gid": f.get("gid", 0)}
+                def obs(f):
+                    return {"exists": bool(f.get("exists")), "runs": [{"fill": f.get("sha", "?"), "len": f.get("len", 0)}] if f.get("exists") else [],
+                            "mode": to_bits(f.get("mode", 0)), "uid": f.get("uid", 0), "gid": f.get("gid", 0)}
+                seen = obs(f)
+                # what the file-post-* hook found the moment it was started
+                ret = obs((e.get("files_first") or [f])[0])
                 out.append({"e": "Reset", "mode": {k: to_bits(v) for k, v in modes.items()}, "uid": uids, "gid": gids,
                             "umask": to_bits(umask), "pre": pre, "idx": -1})
-                out.append({"e": "Write", "type": ftype, "fill": w["sha"], "len": w["len"], "seen": seen})
+                out.append({"e": "Write", "type": ftype, "fill": w["sha"], "len": w["len"], "ret": ret, "seen": seen})
         elif e.get("src") == "acmed" and e.get("ev") == "FileWrite":
             pending = e
     return out
